@@ -34,7 +34,10 @@ def cases(draw, max_chroms=3, max_bins=6):
     maxb = max(len(e) - 1 for e in bt["edges"])
     k = draw(st.integers(2, maxb + 2))
     nnz = len(rows)
-    hist = draw(st.sampled_from(["single", "single", "single", "chain", "merge-commute"]))
+    hist = draw(st.sampled_from(["single", "single", "single", "chain", "merge-commute", "reuse-uri"]))
+    count_float = draw(st.integers(0, 4)) == 0
+    if count_float:
+        rows = [[r[0], r[1], r[2] + 0.25, *r[3:]] for r in rows]
     rows2 = draw(gen.pixels(n, symmetric, count=st.integers(1, 1000), extra_cols=[gen.DYADIC], max_nnz=30)) \
         if hist == "merge-commute" else None
     return {"part": "coarsen", "bt": bt, "symmetric": symmetric, "rows": rows, "k": k,
@@ -42,7 +45,9 @@ def cases(draw, max_chroms=3, max_bins=6):
             "nproc": draw(st.sampled_from([1] * 9 + [2, 3])),
             "cols": draw(st.sampled_from([None, None, ["count"], ["count", "x"]])),
             "agg_count": draw(st.sampled_from(["sum", "sum", "sum", "max"])),
-            "history": hist, "k2": draw(st.integers(2, 4)), "rows2": rows2,
+            "history": hist, "k2": draw(st.integers(2, 4)), "rows2": rows2, "count_float": count_float,
+            # reuse-uri: the SAME source URI is coarsened, re-created with another bin table and other pixels, and coarsened again
+            "bt2": draw(gen.bin_tables(max_chroms=max_chroms, max_bins=max_bins)) if hist == "reuse-uri" else None,
             "dest": draw(st.sampled_from(["", "::/c", "same-file"])), "via": draw(st.sampled_from(["api", "api", "cli"]))}
 
 
@@ -70,7 +75,8 @@ def check_coarsen(case, ctx: Ctx):
     work = ctx.tmpdir()
     try:
         base = os.path.join(work, "base.cool")
-        call("create base", create_from_model, base, bt, rows, symmetric, cols=("count", "x"), h5opts={"compression": None})
+        call("create base", create_from_model, base, bt, rows, symmetric, cols=("count", "x"), h5opts={"compression": None},
+             **({"dtypes": {"count": np.dtype("float64")}} if case.get("count_float") else {}))
         if case["dest"] == "same-file":
             out_uri = base + "::/coarse"
         else:
@@ -115,6 +121,26 @@ def check_coarsen(case, ctx: Ctx):
         if case["dest"] == "same-file":
             check(_read(cooler.Cooler(base), ["count", "x"]) == rows, "base collection changed by coarsening into the same file")
 
+        if case.get("count_float"):
+            check(str(clr.pixels()[0:0]["count"].dtype) == "float64", f"real-valued count column coarsened into {clr.pixels()[0:0]['count'].dtype}")
+        if case["history"] == "reuse-uri":
+            bt2 = case["bt2"]
+            n2 = gen.n_bins(bt2)
+            rows_b = [[min(r[0], n2 - 1), min(r[1], n2 - 1), r[2] + 1, r[3]] for r in rows]
+            seen_b = {}
+            for r in rows_b:
+                key = (min(r[0], r[1]), max(r[0], r[1])) if symmetric else (r[0], r[1])
+                seen_b[key] = [key[0], key[1], r[2], r[3]]
+            rows_b = [seen_b[k_] for k_ in sorted(seen_b)]
+            call("re-create the source URI", create_from_model, base, bt2, rows_b, symmetric, cols=("count", "x"), h5opts={"compression": None},
+                 **({"dtypes": {"count": np.dtype("float64")}} if case.get("count_float") else {}))
+            out2 = os.path.join(work, "again.cool")
+            call("coarsen_cooler (same source URI, second time)", cooler.coarsen_cooler, base, out2, k, case["chunksize"], nproc=case["nproc"], **kw)
+            c2 = cooler.Cooler(out2)
+            check(model.read_bins(c2) == model.bins_rows(model.coarsen_bins(bt2, k)), "second coarsening of the re-created URI: bin table differs")
+            want_b = model.coarsen_rows(bt2, _proj(rows_b, cols), k, symmetric, aggs)
+            got_b = _read(c2, cols)
+            check(got_b == want_b, lambda: f"second coarsening of the re-created source URI differs: got {got_b[:6]} want {want_b[:6]}")
         if case["history"] == "chain" and case["agg_count"] == "sum":
             k2 = case["k2"]
             o2 = os.path.join(work, "chain.cool")
@@ -156,7 +182,8 @@ def check_coarsen(case, ctx: Ctx):
     ctx.record(case, nt, ["coarsen", "hist=" + case["history"], f"nproc={case['nproc']}", "kinds=" + "+".join(sorted(set(bt["kinds"]))),
                           "empty" if not rows else "nonempty", "sym" if symmetric else "square",
                           "k>chrom" if any((len(e) - 1) < k for e in bt["edges"]) else "k<=chrom",
-                          "dest=" + (case["dest"] or "file"), "agg=" + case["agg_count"], "via=" + case.get("via", "api")])
+                          "dest=" + (case["dest"] or "file"), "agg=" + case["agg_count"], "via=" + case.get("via", "api"),
+                          "count-float" if case.get("count_float") else "count-int"])
 
 
 CHECKS = {"coarsen": check_coarsen}
